@@ -273,7 +273,9 @@ func (f *Frame) wrap(t *Term, ty types.Type) *Term {
 	if bits < 64 && signed {
 		return t // small signed: treated as mathematical (listed as assumption)
 	}
-	if f.E.Arith == "wrap" {
+	if f.E.Arith == "wrapall" || f.E.Arith == "wrap" && !signed {
+		// "wrap": unsigned 64-bit arithmetic is modular; signed 64-bit (indices,
+		// lengths) stays mathematical.  "wrapall": both.
 		return f.wrapForce(t, bits, signed)
 	}
 	return t
@@ -303,6 +305,12 @@ func (f *Frame) binop(in *ssa.BinOp) *Val {
 		return mk(eq)
 	}
 	if x.K == VBytes || y.K == VBytes {
+		if in.Op == token.ADD && x.K == VBytes && y.K == VBytes {
+			// concatenation in bytes mode: contents abstract, length exact
+			r := f.freshVal(in.Type(), in.Name())
+			f.assume(Eq(r.Len, Add(x.Len, y.Len)), "len(a+b) == len(a)+len(b)")
+			return r
+		}
 		f.E.fail("string operator %s not supported in bytes mode (%s)", in.Op, f.where(in.Pos()))
 	}
 	if x.K != VScalar || y.K != VScalar {
@@ -767,9 +775,8 @@ func (f *Frame) nonNil(r *Term, pos token.Pos) {
 	}
 	if f.nopanic {
 		f.E.addObl("nopanic.nil", f.E.P.exprTextAt(pos, isExprNode), f.curGuard, Neq(r, IntLit(0)), f.where(pos), f.props())
-	} else {
-		f.assume(Neq(r, IntLit(0)), "dereferenced pointer is not nil")
 	}
+	f.assume(Neq(r, IntLit(0)), "dereferenced pointer is not nil (execution continues only then)")
 }
 
 func (f *Frame) fieldAddr(x *Val, xt types.Type, field int, pos token.Pos) *Val {
@@ -790,9 +797,8 @@ func (f *Frame) fieldAddr(x *Val, xt types.Type, field int, pos token.Pos) *Val 
 func (f *Frame) bounds(kind string, pos token.Pos, cond *Term) {
 	if f.nopanic {
 		f.E.addObl(kind, f.E.P.exprTextAt(pos, isExprNode), f.curGuard, cond, f.where(pos), f.props())
-	} else {
-		f.assume(cond, "index in range (panic-free execution)")
 	}
+	f.assume(cond, "index in range (execution continues only then)")
 }
 
 func (f *Frame) indexAddr(in *ssa.IndexAddr) *Val {
